@@ -289,10 +289,51 @@ def _forward_tuples(fn) -> bool:
     return changed
 
 
+def _forward_slices(fn) -> bool:
+    """'s = slice(a, b, c); ...; x[s]'  ->  'x[a:b:c]' when that call is the only definition of s reaching the subscript and its
+    arguments are not re-bound in between."""
+    uses = [x for x in ast.walk(fn) if isinstance(x, ast.Subscript) and isinstance(x.slice, ast.Name)]
+    defs_ = {t.id for st in ast.walk(fn) if isinstance(st, ast.Assign) and len(st.targets) == 1 and isinstance(st.targets[0], ast.Name)
+             and isinstance(st.value, ast.Call) and isinstance(st.value.func, ast.Name) and st.value.func.id == "slice"
+             for t in st.targets}
+    uses = [x for x in uses if x.slice.id in defs_]
+    if not uses:
+        return False
+    from .cfg import CFG
+    try:
+        cfg = CFG(fn)
+    except Exception:  # pragma: no cover
+        return False
+    rd = cfg.reaching()
+    changed = False
+    for x in uses:
+        n = cfg.node_of(x)
+        if n is None:
+            continue
+        ds = rd.get(n, {}).get(x.slice.id, set())
+        if len(ds) != 1:
+            continue
+        (d,) = ds
+        dst = cfg.nodes[d].ast if cfg.nodes[d].kind == "stmt" else None
+        if not (isinstance(dst, ast.Assign) and isinstance(dst.value, ast.Call) and isinstance(dst.value.func, ast.Name)
+                and dst.value.func.id == "slice" and not dst.value.keywords and 1 <= len(dst.value.args) <= 3):
+            continue
+        names_ = {y.id for a in dst.value.args for y in ast.walk(a) if isinstance(y, ast.Name)}
+        if any(rd.get(d, {}).get(v, set()) != rd.get(n, {}).get(v, set()) for v in names_):
+            continue
+        if any(isinstance(y, ast.Call) for a in dst.value.args for y in ast.walk(a)):
+            continue
+        x.slice = ast.copy_location(copy.deepcopy(dst.value), x.slice)
+        changed = True
+    return changed
+
+
 def normalise_function(fn):
     _normalise_function_once(fn)
-    if _forward_tuples(fn):
-        _normalise_function_once(fn)  # the forwarded displays are split into plain assignments
+    t = _forward_tuples(fn)
+    sl = _forward_slices(fn)
+    if t or sl:
+        _normalise_function_once(fn)  # forwarded displays are split into plain assignments, slice(..) calls become slices
 
 
 def _normalise_function_once(fn):
